@@ -605,8 +605,7 @@ func checkC20(p *Prog, res *Result, tier string) {
 	checkAborts(p, res)
 
 	// ---- R3: shared with C04 ----
-	sub := newResult("C04")
-	checkC04(p, sub, tier)
+	sub := p.subResult("C04", tier)
 	for _, o := range sub.Obls {
 		if o.Rule == "C04-R1" || o.Rule == "C04-R2" || o.Rule == "C04-R3" {
 			res.add("C20-R3", o.Rule+" "+o.Construct, o.Status, o.Pos, o.Detail)
